@@ -84,6 +84,38 @@ def Desc.keysPrinted : Desc → List Key
   | .pkh pk | .wpkh pk | .sh (.wpkh pk) => [pk]
   | .tr ik leaves => ik :: leaves.flatMap (fun l => l.2.keys)
 
+/-! ## `Descriptor::for_each_key` / `for_any_key` -/
+
+/-- `self.leaves().all(|leaf| leaf.miniscript().for_each_key(&mut pred))`: (keys visited, result) -/
+def trLeavesForEach (pred : Key → Bool) : List (Nat × Ms) → List Key × Bool
+  | [] => ([], true)
+  | (_, m) :: ls =>
+    let (v, r) := forEachKey pred m
+    if r then
+      let (v', r') := trLeavesForEach pred ls
+      (v ++ v', r')
+    else (v, false)
+
+/-- `ForEachKey for Descriptor`: the wrappers delegate to the miniscript / call `pred` on their
+key; `Tr`: the leaves in order, then (only if none failed) the internal key -/
+def descForEachKey (pred : Key → Bool) : Desc → List Key × Bool
+  | .bare ms | .wsh ms | .sh (.wsh ms) | .sh (.ms ms) => forEachKey pred ms
+  | .pkh k | .wpkh k | .sh (.wpkh k) => ([k], pred k)
+  | .tr ik leaves =>
+    let (v, r) := trLeavesForEach pred leaves
+    if r then (v ++ [ik], pred ik) else (v, false)
+
+/-- `for_any_key` = `!for_each_key(|k| !pred(k))` -/
+def descForAnyKey (pred : Key → Bool) (d : Desc) : List Key × Bool :=
+  let (v, r) := descForEachKey (fun k => !pred k) d
+  (v, !r)
+
+/-- the keys in `for_each_key` order (`tr`: leaves first, internal key last) -/
+def Desc.keysForEach : Desc → List Key
+  | .bare ms | .wsh ms | .sh (.ms ms) | .sh (.wsh ms) => ms.keys
+  | .pkh pk | .wpkh pk | .sh (.wpkh pk) => [pk]
+  | .tr ik leaves => leaves.flatMap (fun l => l.2.keys) ++ [ik]
+
 /-! ## `Descriptor::iter_pk` -/
 
 /-- `struct PkIter` (the four miniscript key iterators are what they still have to yield) -/
